@@ -26,6 +26,7 @@ fn broken_names(sc: &Scenario) -> Vec<String> {
 pub fn check_scenario(sc: &Scenario, renders: usize) -> Result<serde_json::Value, (String, String)> {
     let data = sc.data.to_object();
     let mut results: Vec<(Policy, Vec<String>)> = Vec::new();
+    let mut first_full: Vec<(Policy, String)> = Vec::new();
     for policy in Policy::ALL {
         let parser = parser_with(Config::Stdlib, policy, &sc.partials).map_err(|e| {
             (
@@ -62,6 +63,7 @@ pub fn check_scenario(sc: &Scenario, renders: usize) -> Result<serde_json::Value
                 format!("repeated renders on one parser differ under {}: {:?}", policy.name(), outs.iter().zip(&fulls).map(|(o, f)| format!("{} {}", o.chars().take(80).collect::<String>(), f)).collect::<Vec<_>>()),
             ));
         }
+        first_full.push((policy, fulls[0].clone()));
         results.push((policy, outs));
     }
     let first = &results[0].1[0];
@@ -82,6 +84,7 @@ pub fn check_scenario(sc: &Scenario, renders: usize) -> Result<serde_json::Value
     // instrumented source under the on-demand policy (it consults the source on every lookup).
     let log = Log::default();
     let src = RecSource::new(&sc.partials, log.clone(), Delay::None);
+    let mut reached_broken = false;
     let mut reached_bad = false;
     let mut looked_up = Vec::new();
     if let Ok(parser) = parser_with_source(Config::Stdlib, Policy::OnDemand, src) {
@@ -93,15 +96,19 @@ pub fn check_scenario(sc: &Scenario, renders: usize) -> Result<serde_json::Value
                 looked_up.push(l.name.clone());
                 // `render` retries "<name>.liquid"; that retry only happens after the first miss
                 let base = l.name.trim_end_matches(".liquid").to_string();
+                if bad.contains(&l.name) {
+                    reached_broken = true;
+                }
                 if bad.contains(&l.name) || !present.contains(&&base) && !present.contains(&&l.name) {
                     reached_bad = true;
                 }
             }
         }
     }
-    if !reached_bad {
-        // the executed path never named a broken or missing partial: all policies must behave
-        // exactly as if the broken partials were healthy (empty) ones
+    if !reached_broken {
+        // the executed path never named a broken partial: every policy must behave exactly as if
+        // the broken partials were healthy (empty) ones -- same output, or the same failure down to
+        // its whole message (e.g. the failure for a *missing* partial that the path did name)
         let healthy: Vec<(String, String)> = {
             let bad = broken_names(sc);
             sc.partials
@@ -109,19 +116,30 @@ pub fn check_scenario(sc: &Scenario, renders: usize) -> Result<serde_json::Value
                 .map(|(n, t)| if bad.contains(n) { (n.clone(), String::new()) } else { (n.clone(), t.clone()) })
                 .collect()
         };
-        let hp = parser_with(Config::Stdlib, Policy::Eager, &healthy).map_err(|e| ("harness".to_string(), e.to_string()))?;
-        if let Ok(t) = hp.parse(&sc.main) {
-            let want = render(&t, &data).summary_with_error();
-            for (policy, outs) in &results {
-                if outs[0] != want {
+        for (policy, outs) in &results {
+            if outs[0] == "main-parse-error" {
+                continue;
+            }
+            let hp = parser_with(Config::Stdlib, *policy, &healthy).map_err(|e| ("harness".to_string(), e.to_string()))?;
+            if let Ok(t) = hp.parse(&sc.main) {
+                let o = render(&t, &data);
+                let want = o.summary_with_error();
+                let want_full = match &o {
+                    crate::exec::Out::Err(_) => crate::exec::error_fingerprint(&crate::exec::last_error_text().unwrap_or_default()),
+                    _ => String::new(),
+                };
+                let got_full = first_full.iter().find(|(p, _)| p == policy).map(|(_, f)| f.clone()).unwrap_or_default();
+                if outs[0] != want || got_full != want_full {
                     return Err((
                         format!("unused-broken-partial-affects:{}", policy.name()),
                         format!(
-                            "no broken/missing partial was reached (lookups: {:?}) yet the {} result {:?} differs from the result with healthy partials {:?}",
+                            "no broken partial was reached (lookups: {:?}) yet the {} result {:?} {} differs from the result with healthy partials {:?} {}",
                             looked_up,
                             policy.name(),
                             outs[0].chars().take(200).collect::<String>(),
-                            want.chars().take(200).collect::<String>()
+                            got_full,
+                            want.chars().take(200).collect::<String>(),
+                            want_full
                         ),
                     ));
                 }
